@@ -38,6 +38,8 @@ FLOORS["quick"].update({'echoed_arrivals_inside_next_hop_put': 4000, 'late_arriv
 FLOORS["thorough"].update({'echoed_arrivals_inside_next_hop_put': 20000, 'late_arrivals_inside_an_instant': 15000, 'store_as_next_hop_cases': 750})
 FLOORS["quick"].update({'downstream_transmissions': 5000, 'fractional_size_cases': 100})
 FLOORS["thorough"].update({'downstream_transmissions': 25000, 'fractional_size_cases': 500})
+FLOORS["quick"].update({'monitor_flag_reassignments': 90})
+FLOORS["thorough"].update({'monitor_flag_reassignments': 450})
 
 
 def plan(tier):
